@@ -1,5 +1,6 @@
 """C20 — Key-level diff and keyed lookup respect both files' orders."""
 import itertools
+import os
 
 from lib import common as C
 from lib.runner import Outcome
@@ -11,26 +12,62 @@ THEOREMS = [
     (M, "C20.addRemove_eq_spec", "diff of duplicate-free sequences = closed form (left order kept, right-only keys after their anchor)"),
     (M, "C20.ar_anchor", "right-only keys follow the last key preceding them in the second sequence that is also in the first"),
     (M, "C20.ar_keys_perm", "every key of either side occurs exactly once"),
-    (M, "C20.ar_keys_nodup", "no key is yielded twice"),
-    (M, "C20.ar_labels", "labels are decided by membership only"),
-    (M, "C20.ar_left_order", "the first sequence's order is kept"),
+    (M, "C20.ar_keys_nodup", "no key is yielded twice, for ALL inputs (duplicates allowed)"),
+    (M, "C20.ar_keys_mem", "the yielded keys are exactly the keys of either side, for ALL inputs"),
+    (M, "C20.ar_labels", "labels are decided by membership only, for ALL inputs"),
+    (M, "C20.ar_left_order", "the first sequence's order is kept (duplicate-free left, ANY right)"),
     (M, "C20.keyed_last", "keyed lookup returns the last entity with the key"),
     (M, "C20.keyed_contains", "key membership = some entity has the key"),
+    # round 4
+    (M, "C20.ar_eq_specD", "AddRemove.__iter__ on ANY two sequences (duplicates on either side) = closed form specD: left keys once in "
+                           "last-occurrence order, right-only keys once after the anchor of their first occurrence"),
+    (M, "C20.specD_nodup", "on duplicate-free sequences the closed form with duplicates is the old closed form"),
+    (M, "C20.ar_left_order_dup", "with duplicates on the left, the non-add keys are the left keys once each in last-occurrence order"),
+    (M, "C20.ar_anchor_dup", "placement rule on the keys alone for ALL inputs (repeated right-only keys re-activate their first anchor)"),
+    (M, "C20.ar_dup_left_only", "if no right-only key is repeated, the diff is the duplicate-free closed form against the left side "
+                                "reduced to its last occurrences"),
+    (M, "C20.obj_iterate_pure", "AddRemove.__iter__ does not change the object (state = left, right)"),
+    (M, "C20.obj_state", "after any history of set_left/set_right/iterate the state is (last set_left arg, last set_right arg)"),
+    (M, "C20.obj_trace_spec", "on ONE instance every iteration in every operation sequence yields the closed form of the CURRENT "
+                              "left/right (TypeError while a side is None) - history independence"),
+    (M, "C20.obj_trace_setter", "set_left/set_right yield nothing"),
+    (M, "C20.obj_iterate_repeat", "iterating twice in a row gives the same result twice"),
+    (M, "C20.ar_hash_independent", "renaming the keys injectively (hash slot, id, other PYTHONHASHSEED, str->tuple) renames the result "
+                                   "and changes neither labels nor order"),
+    (M, "C20.kt_immutable", "no KeyedTuple query changes the object"),
+    (M, "C20.kt_answers", "every answer in every query sequence on one KeyedTuple = closed form over the entity list alone"),
+    (M, "C20.kt_order", "keys(), values() and iteration preserve file order, duplicates included"),
+    (M, "C20.kt_items_zip", "items() = zip(keys(), values()) positionally, duplicates included"),
+    (M, "C20.kt_items_getElem", "the i-th item is (key of the i-th entity, the i-th entity) - never the last entity with that key"),
+    (M, "C20.kt_lookup_last", "kt[key] is e iff e has the key, is in the file, and no later entity has the key"),
+    (M, "C20.kt_lookup_missing", "kt[key] for an absent key raises TypeError (tuple.__getitem__(str))"),
+    (M, "C20.kt_contains_iff", "key in kt iff some entity has the key"),
+    (M, "C20.kt_contains_other", "unhashable / int / slice are never members (lines 34-35 swallow the dict's TypeError); an entity "
+                                 "object is a member iff it is an element"),
+    (M, "C20.kt_index_slice", "int indexing and slicing bypass the map; slices and sums are plain tuples"),
 ]
 PARTIAL = []
-LEVEL_TEXT = ("Lean 4 theorems over an executable transliteration of AddRemove.__iter__ and KeyedTuple: for ALL duplicate-free key "
-              "sequences the diff equals a closed form (each key once, labels by membership, left order kept, right-only keys after "
-              "their anchor) and keyed lookup returns the last entity; the model is tied to the Python by exhaustive small + random "
-              "differential runs, and an independent oracle checks the property on the implementation")
+LEVEL_TEXT = ("Lean 4 theorems over an executable transliteration of the AddRemove object (set_left/set_right/__iter__ as a state "
+              "machine) and of KeyedTuple (with its __map): for ALL key sequences, duplicates included, the diff equals a closed form; "
+              "on ONE instance every iteration of every operation sequence yields the closed form of the current sides; every "
+              "KeyedTuple answer in every query sequence equals a closed form over the entity list (lookup = last entity, items = "
+              "zip(keys, values)); the result is equivariant under injective key renamings (hash independence); the model is tied "
+              "to the Python by exhaustive small + random differential runs of single diffs, operation histories and query "
+              "sequences, and an independent oracle checks the property on the implementation, also under other PYTHONHASHSEEDs")
 LEVEL_NOTE = ("trusted: Lean kernel; hand-written model of dict/sorted (association list + merge sort) validated by correspondence; "
-              "theorems need duplicate-free sequences (negation witnesses show why); hashing independence is by construction of the model "
-              "and by running str and tuple keys")
+              "the duplicate-free closed form `spec` needs Nodup (negation witnesses), the general one `specD` does not; "
+              "tuple.__getitem__/__contains__/slicing and generator laziness are builtin behaviour, modelled and tied by "
+              "correspondence only")
 TECHNIQUE = "Lean 4 proof (closed form of the key diff) + differential correspondence with the Python implementation"
 TRUSTED = [
     "hand-written model CLModel/Compare/AddRemove.lean of AddRemove.__iter__ and KeyedTuple (tied by the `ar`/`keyed` correspondence)",
+    "hand-written models CLModel/Compare/AddRemoveObj.lean (object state machine, tied by `c20.sm`; closed form, tied by `c20.specd`) "
+    "and CLModel/Compare/KeyedTuple.lean (object with __map, tuple primitives; tied by `c20.kt`)",
     "Python dict/sorted modelled as association list + stable merge sort",
 ]
-ASSUMPTIONS = ["keys are hashable values with value equality (str or tuple), as produced by the parsers"]
+ASSUMPTIONS = ["keys are hashable values with value equality (str or tuple), as produced by the parsers",
+               "keys are never ints, slices or entity objects (KeyedTuple model)",
+               "callers do not mutate a list after passing it to set_left/set_right (the object aliases list arguments)"]
 
 
 def impl_ar(left, right):
@@ -87,13 +124,447 @@ def mk_key(i, kind):
     return ("id%d" % i, None if i % 2 else "ctx")
 
 
+# ===================================================================== round 4
+LAB = {"equal": "e", "delete": "d", "add": "a"}
+
+
+def key_id(k):
+    """inverse of mk_key"""
+    return int(k[1:]) if isinstance(k, str) else int(k[0][2:])
+
+
+def dedup_last(seq):
+    """each element once, at the position of its LAST occurrence"""
+    return list(reversed(list(dict.fromkeys(reversed(list(seq))))))
+
+
+def oracle_any(left, right, res):
+    """what the property demands of ONE diff for ANY two sequences (duplicates allowed): every key of either side
+    exactly once, labelled by membership, first sequence's order kept; returns None or a message"""
+    keys = [k for _, k in res]
+    L, R = set(left), set(right)
+    if len(keys) != len(set(keys)):
+        return "a key is yielded more than once"
+    if set(keys) != (L | R):
+        return "yielded keys are not the keys of either side"
+    for lab, k in res:
+        exp = "equal" if (k in L and k in R) else ("delete" if k in L else "add")
+        if lab != exp:
+            return "label of %r is %s, expected %s" % (k, lab, exp)
+    kept = [k for k in keys if k in L]
+    if kept != dedup_last(left) and kept != list(dict.fromkeys(left)):
+        # the property only says "keeps the first sequence's order": for a repeated left key either occurrence may stand
+        # for it (the code uses the last one - pinned by the correspondence with the model, theorem ar_left_order_dup)
+        return "left order not kept"
+    return None
+
+
+def oracle_diff(left, right, res):
+    bad = oracle_any(left, right, res)
+    if bad is None and len(set(left)) == len(left) and len(set(right)) == len(right):
+        bad = oracle_ar(left, right, res)
+    return bad
+
+
+def canon_diff(res):
+    if isinstance(res, str):
+        return res
+    return "[" + ",".join(LAB.get(a, "?" + str(a)) + str(key_id(k)) for a, k in res) + "]"
+
+
+def wrap_arg(keys, how):
+    """the object handed to set_left / set_right"""
+    if how == "list":
+        return list(keys)
+    if how == "tuple":
+        return tuple(keys)
+    if how == "gen":
+        return (k for k in keys)
+    from compare_locales.keyedtuple import KeyedTuple       # "keys": what ContentComparer / merge pass
+    return KeyedTuple([E(k, i) for i, k in enumerate(keys)]).keys()
+
+
+def impl_sm(ops, kind):
+    """ops on ONE AddRemove instance: ["L", ids, how] | ["R", ids, how] | ["I"]; returns what every I observed"""
+    from compare_locales.compare.utils import AddRemove
+    ar = AddRemove()
+    obs = []
+    for op in ops:
+        if op[0] == "I":
+            try:
+                obs.append(list(ar))
+            except Exception as e:      # noqa
+                obs.append(type(e).__name__)
+        elif op[0] == "L":
+            ar.set_left(wrap_arg([mk_key(i, kind) for i in op[1]], op[2]))
+        else:
+            ar.set_right(wrap_arg([mk_key(i, kind) for i in op[1]], op[2]))
+    return obs
+
+
+def oracle_sm(ops, kind, obs):
+    """history independence: every iteration = a FRESH object given the current sides, and satisfies the property;
+    returns None or (position of the iteration, message)"""
+    cur = {"L": None, "R": None}
+    j = 0
+    for pos, op in enumerate(ops):
+        if op[0] != "I":
+            cur[op[0]] = [mk_key(i, kind) for i in op[1]]
+            continue
+        got = obs[j]
+        j += 1
+        if cur["L"] is None or cur["R"] is None:
+            if got != "TypeError":
+                return pos, "iteration with an unset side gave %r instead of raising TypeError" % (got,)
+            continue
+        if isinstance(got, str):
+            return pos, "iteration raised %s" % got
+        bad = oracle_diff(cur["L"], cur["R"], got)
+        if bad:
+            return pos, bad
+        fresh = impl_ar(list(cur["L"]), list(cur["R"]))
+        if got != fresh:
+            return pos, "iteration on the used instance differs from a fresh instance with the same sides: %s vs %s" % (
+                canon_diff(got), canon_diff(fresh))
+    return None
+
+
+def sm_line(ops):
+    toks = []
+    for op in ops:
+        toks.append("I" if op[0] == "I" else "%s:%s" % (op[0], ",".join(map(str, op[1]))))
+    return "c20.sm " + " ".join(toks)
+
+
+def gen_sm_cases(ctx, rng):
+    hows = ["list", "tuple", "gen", "keys"]
+    cases = []
+    # exhaustive: all histories up to length 4 over 7 operations (both sides have duplicates and right-only keys)
+    alphabet = [["L", [0, 1]], ["L", [1, 0, 1]], ["L", []], ["R", [2, 0, 3]], ["R", [3, 1, 3, 2]], ["R", [0]], ["I"]]
+    maxlen = 4 if ctx.tier == "quick" else 5
+    for n in range(1, maxlen + 1):
+        for seq in itertools.product(range(len(alphabet)), repeat=n):
+            if 6 not in seq:
+                continue
+            cases.append([list(alphabet[i]) + ([hows[(i + j) % 4]] if i != 6 else []) for j, i in enumerate(seq)])
+    for _ in range(ctx.n(2500, 40000)):
+        nsym = rng.choice([3, 5, 8])
+        ops = []
+        for _ in range(rng.randrange(2, 13)):
+            x = rng.random()
+            if x < 0.4:
+                ops.append(["I"])
+            elif x < 0.5 and ops and ops[-1][0] != "I":
+                ops.append([("R" if ops[-1][0] == "L" else "L"), list(ops[-1][1]), rng.choice(hows)])   # the other side, identical
+            else:
+                if rng.random() < 0.5:
+                    seq = rng.sample(range(nsym), rng.randrange(0, nsym + 1))
+                else:
+                    seq = [rng.randrange(nsym) for _ in range(rng.randrange(0, 9))]
+                ops.append(["L" if x < 0.7 else "R", seq, rng.choice(hows)])
+        if not any(o[0] == "I" for o in ops):
+            ops.append(["I"])
+        cases.append(ops)
+    return cases
+
+
+# ------------------------------------------------------------------ KeyedTuple as an object
+UNHASHABLE = [lambda: [1], lambda: {}, lambda: set()]
+
+
+def kt_build(ks, kind, how):
+    from compare_locales.keyedtuple import KeyedTuple
+    ents = [E(mk_key(k, kind), i) for i, k in enumerate(ks)]
+    if how == "list":
+        kt = KeyedTuple(list(ents))
+    elif how == "tuple":
+        kt = KeyedTuple(tuple(ents))
+    elif how == "gen":
+        kt = KeyedTuple(e for e in ents)
+    else:
+        kt = KeyedTuple(KeyedTuple(ents))
+    return kt, ents
+
+
+def show_val(r):
+    if isinstance(r, E):
+        return "E%d" % r.n
+    if isinstance(r, tuple):
+        return "%s[%s]" % (type(r).__name__, ",".join(str(e.n) for e in r))
+    return "?%s" % type(r).__name__
+
+
+def kt_arg(body, ents, kind, salt):
+    c = body[0]
+    if c == "k":
+        return mk_key(int(body[1:]), kind)
+    if c == "i":
+        return int(body[1:])
+    if c == "u":
+        return UNHASHABLE[salt % 3]()
+    if c == "s":
+        lo, hi = body[1:].split(":")
+        return slice(int(lo) if lo else None, int(hi) if hi else None)
+    k, i = body[1:].split(":")
+    k, i = int(k), int(i)
+    if i < len(ents) and key_id(ents[i].key) == k:
+        return ents[i]                      # the member object itself
+    return E(mk_key(k, kind), i)            # some other entity object
+
+
+def kt_ask(kt, ents, tok, kind, salt=0):
+    from compare_locales.keyedtuple import KeyedTuple
+    c = tok[0]
+    try:
+        if c == "g":
+            return show_val(kt[kt_arg(tok[1:], ents, kind, salt)])
+        if c == "c":
+            return "true" if (kt_arg(tok[1:], ents, kind, salt) in kt) else "false"
+        if c == "K":
+            return "keys[%s]" % ",".join(str(key_id(k)) for k in kt.keys())
+        if c == "V":
+            return show_val(kt.values())
+        if c == "I":
+            return "items[%s]" % ",".join("%d:%d" % (key_id(k), v.n) for k, v in kt.items())
+        if c == "T":
+            return "tuple[%s]" % ",".join(str(e.n) for e in iter(kt))
+        if c == "N":
+            return str(len(kt))
+        if c == "A":
+            body = tok[2:]
+            other = KeyedTuple([E(mk_key(int(k), kind), 100 + i) for i, k in enumerate(body.split(",") if body else [])])
+            return show_val(kt + other)
+    except Exception as e:      # noqa
+        return type(e).__name__
+    return "?"
+
+
+def impl_kt(ks, qs, kind, how):
+    kt, ents = kt_build(ks, kind, how)
+    return [kt_ask(kt, ents, q, kind, j) for j, q in enumerate(qs)]
+
+
+def oracle_kt(ks, qs, ans):
+    """the property on one KeyedTuple queried by a sequence; returns None or (position, message)"""
+    n = len(ks)
+    first = {}
+    for pos, (q, a) in enumerate(zip(qs, ans)):
+        if q in first and first[q] != a:
+            return pos, "query %s answered %s, earlier on the same instance %s" % (q, a, first[q])
+        first.setdefault(q, a)
+        exp = None
+        if q.startswith("gk"):
+            idx = [i for i, k in enumerate(ks) if k == int(q[2:])]
+            if idx:
+                exp = "E%d" % idx[-1]
+            elif a[:1] == "E" and a[1:].isdigit() or "[" in a:
+                return pos, "lookup of an absent key returned %s" % a
+        elif q.startswith("ck"):
+            exp = "true" if int(q[2:]) in ks else "false"
+        elif q.startswith("gi"):
+            i = int(q[2:])
+            exp = "E%d" % (i % n) if -n <= i < n else "IndexError"
+        elif q == "K":
+            exp = "keys[%s]" % ",".join(map(str, ks))
+        elif q == "I":
+            exp = "items[%s]" % ",".join("%d:%d" % (k, i) for i, k in enumerate(ks))
+        elif q == "T":
+            exp = "tuple[%s]" % ",".join(map(str, range(n)))
+        elif q == "V":
+            if a[a.find("["):] != "[%s]" % ",".join(map(str, range(n))):
+                return pos, "values() gave %s" % a
+        elif q == "N":
+            exp = str(n)
+        if exp is not None and a != exp:
+            return pos, "%s gave %s, expected %s" % (q, a, exp)
+    return None
+
+
+def kt_base_queries(n, nkeys):
+    qs = []
+    for k in range(nkeys + 1):
+        qs += ["gk%d" % k, "ck%d" % k]
+    qs += ["gi%d" % i for i in range(-n - 1, n + 2)]
+    qs += ["gs:", "gs1:", "gs:-1", "gs1:3", "gs-2:", "gs3:1", "gs-9:9", "gu", "cu", "ci0", "cs:", "ge0:0", "ce0:0", "ce1:0",
+           "ce%d:%d" % (nkeys, n), "K", "V", "I", "T", "N", "A:", "A:0,%d" % nkeys]
+    return qs
+
+
+def gen_kt_cases(ctx, rng):
+    hows = ["list", "tuple", "gen", "kt"]
+    cases = []
+    maxn = 4 if ctx.tier == "quick" else 5
+    for n in range(maxn + 1):
+        for ks in itertools.product(range(3), repeat=n):
+            base = kt_base_queries(n, 3)
+            again = list(base)
+            rng.shuffle(again)
+            cases.append((list(ks), base + again))
+    for _ in range(ctx.n(300, 6000)):
+        nk = rng.choice([2, 4, 6])
+        ks = [rng.randrange(nk) for _ in range(rng.randrange(0, 11))]
+        base = kt_base_queries(len(ks), nk)
+        qs = [rng.choice(base) for _ in range(rng.randrange(5, 40))]
+        cases.append((ks, qs))
+    return [(ks, qs, hows[i % 4]) for i, (ks, qs) in enumerate(cases)]
+
+
+# ------------------------------------------------------------------ other PYTHONHASHSEEDs (runs in a worker)
+def hs_eval(batch):
+    """canonical outputs of a batch of cases; executed in worker processes started with another PYTHONHASHSEED"""
+    out = []
+    for c in batch:
+        if c[0] == "ar":
+            _, l, r, kind = c
+            out.append(canon_diff(impl_ar([mk_key(i, kind) for i in l], [mk_key(i, kind) for i in r])))
+        elif c[0] == "sm":
+            _, ops, kind = c
+            out.append(" ".join(canon_diff(o) for o in impl_sm(ops, kind)))
+        else:
+            _, ks, qs, kind, how = c
+            out.append(" ".join(impl_kt(ks, qs, kind, how)))
+    return out
+
+
+HASHSEEDS = ["1", "2", "4242", "random"]
+
+
+def run_round4(ctx, out, rng, ar_cases):
+    from lib import pool
+    # ---- the closed form with duplicates, natively, against the implementation (random pairs of the `ar` stream)
+    dup_cases = [(l, r) for l, r, nodup in ar_cases if not nodup]
+    # related sides (what comparing two versions of one file looks like): identical, reversed, shuffled, edited, doubled
+    for _ in range(ctx.n(2000, 30000)):
+        nsym = rng.choice([3, 5, 8])
+        l = [rng.randrange(nsym) for _ in range(rng.randrange(1, 11))]
+        mode = rng.randrange(6)
+        if mode == 0:
+            r = list(l)
+        elif mode == 1:
+            r = l[::-1]
+        elif mode == 2:
+            r = list(l)
+            rng.shuffle(r)
+        elif mode == 3:
+            r = [x for x in l if rng.random() < 0.7]
+        elif mode == 4:
+            r = list(l)
+            for _ in range(rng.randrange(1, 4)):
+                r.insert(rng.randrange(len(r) + 1), rng.randrange(nsym + 2))
+        else:
+            r = l + l
+        dup_cases.append((l, r))
+    lines = ["c20.specd t:%s t:%s" % (",".join(map(str, l)), ",".join(map(str, r))) for l, r in dup_cases]
+    model = C.run_driver_parallel(lines) if ctx.model_ok else [None] * len(lines)
+    model_ar = C.run_driver_parallel(["ar" + ln[len("c20.specd"):] for ln in lines]) if ctx.model_ok else [None] * len(lines)
+    for idx, ((l, r), mo, mo2) in enumerate(zip(dup_cases, model, model_ar)):
+        kind = "str" if idx % 2 else "tuple"
+        lk = [mk_key(i, kind) for i in l]
+        rk = [mk_key(i, kind) for i in r]
+        res = impl_ar(lk, rk)
+        out.evaluations += 1
+        bad = oracle_any(lk, rk, res)
+        canon = canon_diff(res)
+        rightonly = [x for x in r if x not in l]
+        quirk = len(rightonly) != len(set(rightonly))
+        out.count("specd.repeated_right_only=%s" % quirk)
+        if quirk:
+            out.nontrivial.add(("specd", tuple(l), tuple(r)))
+        if bad:
+            out.violations.append({"what": "AddRemove (duplicates): " + bad, "input": {"left": l, "right": r, "keykind": kind}, "op": "ar"})
+        elif mo is not None and mo != canon:
+            out.disagreements.append({"op": "c20.specd", "left": l, "right": r, "impl": canon, "model": mo})
+        elif mo2 is not None and "[" + mo2.replace(" ", ",") + "]" != canon:
+            out.disagreements.append({"op": "ar", "left": l, "right": r, "impl": canon, "model": mo2})
+    # ---- histories on ONE AddRemove instance
+    sm_cases = gen_sm_cases(ctx, rng)
+    lines = [sm_line(ops) for ops in sm_cases]
+    model = C.run_driver_parallel(lines) if ctx.model_ok else [None] * len(lines)
+    for idx, (ops, mo) in enumerate(zip(sm_cases, model)):
+        kind = "str" if idx % 2 else "tuple"
+        obs = impl_sm(ops, kind)
+        canon = " ".join(canon_diff(o) for o in obs)
+        out.evaluations += 1
+        distinct = len(set(canon.split(" ")))
+        out.count("sm.distinct_observations=%d" % min(distinct, 4))
+        if distinct >= 2:
+            out.nontrivial.add(("sm", canon))
+        if len([s for s in out.samples if s.get("op") == "c20.sm"]) < 2 and distinct >= 3:
+            out.samples.append({"op": "c20.sm", "ops": sm_line(ops), "result": canon})
+        bad = oracle_sm(ops, kind, obs)
+        if bad:
+            out.violations.append({"what": "AddRemove history (operation %d): %s" % bad,
+                                   "input": {"ops": ops, "keykind": kind}, "op": "sm"})
+        elif mo is not None and mo != canon:
+            out.disagreements.append({"op": "c20.sm", "ops": sm_line(ops), "impl": canon, "model": mo})
+    # ---- query sequences on ONE KeyedTuple instance
+    kt_cases = gen_kt_cases(ctx, rng)
+    lines = ["c20.kt t:%s %s" % (",".join(map(str, ks)), " ".join(qs)) for ks, qs, _ in kt_cases]
+    model = C.run_driver_parallel(lines) if ctx.model_ok else [None] * len(lines)
+    for idx, ((ks, qs, how), mo) in enumerate(zip(kt_cases, model)):
+        kind = "str" if idx % 2 else "tuple"
+        ans = impl_kt(ks, qs, kind, how)
+        canon = " ".join(ans)
+        out.evaluations += 1
+        if len(set(ks)) < len(ks):
+            out.nontrivial.add(("kt", tuple(ks), how))
+        out.count("kt.built_from=%s" % how)
+        if len([s for s in out.samples if s.get("op") == "c20.kt"]) < 2 and len(set(ks)) < len(ks) and len(ks) >= 3:
+            out.samples.append({"op": "c20.kt", "keys": ks, "queries": " ".join(qs[:24]), "result": " ".join(ans[:24])})
+        bad = oracle_kt(ks, qs, ans)
+        if bad:
+            out.violations.append({"what": "KeyedTuple (query %d): %s" % bad,
+                                   "input": {"keys": ks, "queries": qs, "keykind": kind, "how": how}, "op": "kt"})
+        elif mo is not None and mo != canon:
+            out.disagreements.append({"op": "c20.kt", "keys": ks, "queries": " ".join(qs), "impl": canon, "model": mo})
+    # ---- the same outputs under other PYTHONHASHSEED values (str AND tuple keys)
+    batch = []
+    pick = rng.sample(range(len(ar_cases)), min(len(ar_cases), ctx.n(400, 4000)))
+    for i in pick:
+        l, r, _ = ar_cases[i]
+        for kind in ("str", "tuple"):
+            batch.append(["ar", l, r, kind])
+    for i in rng.sample(range(len(sm_cases)), min(len(sm_cases), ctx.n(200, 2000))):
+        for kind in ("str", "tuple"):
+            batch.append(["sm", sm_cases[i], kind])
+    for i in rng.sample(range(len(kt_cases)), min(len(kt_cases), ctx.n(60, 600))):
+        ks, qs, how = kt_cases[i]
+        for kind in ("str", "tuple"):
+            batch.append(["kt", ks, qs, kind, how])
+    here = hs_eval(batch)
+    chunk = 400
+    chunks = [batch[i:i + chunk] for i in range(0, len(batch), chunk)]
+    for seed in HASHSEEDS:
+        res = pool.pmap("props.c20", "hs_eval", [[c] for c in chunks], timeout=60.0, batch=1,
+                        env={"PYTHONHASHSEED": seed})
+        there = []
+        for c, r in zip(chunks, res):
+            if not isinstance(r, dict) or "r" not in r:
+                raise RuntimeError("hashseed worker failed: %r" % (r,))
+            there += r["r"]
+        for c, a, b in zip(batch, here, there):
+            out.evaluations += 1
+            if a != b:
+                out.violations.append({"what": "result depends on hashing: PYTHONHASHSEED=%s gave %s, PYTHONHASHSEED=%s gave %s" % (
+                    os.environ.get("PYTHONHASHSEED", "?"), a, seed, b), "input": {"case": c, "hashseed": seed}, "op": "hashseed"})
+        out.count("hashseed=%s" % seed, len(batch))
+
+
 def run(ctx):
     from compare_locales.keyedtuple import KeyedTuple
     out = Outcome()
     out.rule = ("ar: all pairs of duplicate-free sequences over 5 symbols up to lengths (4,4) quick / (5,5) thorough, plus random "
                 "pairs with duplicates over 8 symbols up to length 12; keyed: all key lists over 3 keys up to length 5 "
                 "(str and tuple keys) x all queries. non-trivial = both sides non-empty and result contains >= 2 labels; "
-                "distinct = distinct (left,right) inputs among those")
+                "distinct = distinct (left,right) inputs among those. Round 4: specd = the random pairs with duplicates + pairs of RELATED "
+                "sides with duplicates (identical, reversed, shuffled, sub-sequence, edited, doubled) against the native closed form and the "
+                "transliteration (non-trivial = a right-only key is repeated); sm = ALL histories of set_left/set_right/iterate "
+                "up to length 4 (quick) / 5 (thorough) over 7 operations on ONE AddRemove instance + random histories up to length 12 "
+                "(arguments passed as list/tuple/generator/KeyedTuple.keys(); non-trivial = >= 2 distinct observations); kt = every key "
+                "list over 3 keys up to length 4/5, built from list/tuple/generator/KeyedTuple, queried TWICE by the full query set "
+                "(keys, absent key, every index, slices, unhashable, entity objects, keys/values/items/iter/len/concat) on ONE instance "
+                "+ random (non-trivial = duplicate keys); hashseed = samples of all three re-run under PYTHONHASHSEED 1, 2, 4242, random "
+                "with str and tuple keys, full outputs compared")
     rng = ctx.rng("c20")
     cases = []
     maxl = 4 if ctx.tier == "quick" else 5
@@ -164,6 +635,7 @@ def run(ctx):
             out.disagreements.append({"op": "keyed", "keys": ks, "q": q, "impl": canon, "model": mo})
         if len(out.samples) < 6 and ks.count(q) > 1:
             out.samples.append({"op": "keyed", "keys": ks, "query": q, "result": canon})
+    run_round4(ctx, out, ctx.rng("c20.round4"), cases)
     return out
 
 
@@ -175,5 +647,33 @@ def replay(payload):
             lk = [mk_key(x, i["keykind"]) for x in i["left"]]
             rk = [mk_key(x, i["keykind"]) for x in i["right"]]
             r = impl_ar(lk, rk)
-            res.append({"input": i, "result": r, "oracle": oracle_ar(lk, rk, r)})
+            res.append({"input": i, "result": r, "oracle": oracle_diff(lk, rk, r)})
+        elif v.get("op") == "sm":
+            obs = impl_sm(i["ops"], i["keykind"])
+            bad = oracle_sm(i["ops"], i["keykind"], obs)
+            res.append({"input": i, "result": " ".join(canon_diff(o) for o in obs), "oracle": bad and "operation %d: %s" % bad})
+        elif v.get("op") == "kt":
+            ans = impl_kt(i["keys"], i["queries"], i["keykind"], i["how"])
+            bad = oracle_kt(i["keys"], i["queries"], ans)
+            res.append({"input": i, "result": " ".join(ans), "oracle": bad and "query %d: %s" % bad})
+        elif v.get("op") == "hashseed":
+            from lib import pool
+            here = hs_eval([i["case"]])
+            r = pool.pmap("props.c20", "hs_eval", [[[i["case"]]]], timeout=60.0, batch=1, env={"PYTHONHASHSEED": str(i["hashseed"])})
+            there = r[0].get("r") if isinstance(r[0], dict) else None
+            res.append({"input": i, "result": [here, there], "oracle": None if here == there else "outputs differ"})
+        elif v.get("op") == "keyed":
+            from compare_locales.keyedtuple import KeyedTuple
+            ks, q, kind = i["keys"], i["query"], i["keykind"]
+            ents = [E(mk_key(k, kind), n) for n, k in enumerate(ks)]
+            kt = KeyedTuple(ents)
+            qk = mk_key(q, kind)
+            try:
+                got = kt[qk].n
+            except (IndexError, TypeError, KeyError):
+                got = None
+            exp = max([n for n, k in enumerate(ks) if k == q], default=None)
+            ok = got == exp and (qk in kt) == (exp is not None) and [e.n for e in kt] == list(range(len(ks))) \
+                and list(kt.keys()) == [e.key for e in ents] and [v.n for _, v in kt.items()] == list(range(len(ks)))
+            res.append({"input": i, "result": got, "oracle": None if ok else "lookup/order wrong"})
     return {"violates": any(r["oracle"] for r in res), "cases": res}
